@@ -343,3 +343,113 @@ def read (fs : FS) (kfuel fuel : Nat) (cwdS : Str) (cwd : Loc) (base loc : Str) 
     | some i => (produce ep (fs.data i) offset length, [Ev.check v, Ev.openEv p (some i)])
 
 end IrVerif.Path
+
+/-! ## Stateful reads: the cached mapping of an `ExternalTensor` -/
+namespace IrVerif.Path
+
+/-- The cached state of an `ExternalTensor`: `raw` = the inode currently memory-mapped
+(`self.raw`, _core.py `_load`), `arr` = `self._array is not None`. -/
+structure TState where
+  raw : Option Nat
+  arr : Bool
+  deriving Repr, DecidableEq
+
+def TState.fresh : TState := { raw := none, arr := false }
+
+def sliceOf (content : List Nat) (offset length : Nat) : List Nat := (content.drop offset).take length
+
+/-- the inode a guarded read opens: none when the check rejects or the open fails -/
+def openedIno (fs : FS) (kfuel fuel : Nat) (cwdS : Str) (cwd : Loc) (base loc : Str) : Option Nat :=
+  match checkContainment fs kfuel fuel cwdS cwd base loc with
+  | Verdict.rej1 | Verdict.rej2 | Verdict.rej3 => none
+  | _ => openFile fs kfuel cwd (tensorPath base loc)
+
+/-- `ExternalTensor._load` (size > 0): check, open (the events of a guarded read), mmap (raises on
+an empty file, `raw` untouched), `np.frombuffer` (raises when the file is shorter than
+offset+length; `raw` is already set then).  Returns (ok?, events, new state). -/
+def loadStep (fs : FS) (kfuel fuel : Nat) (cwdS : Str) (cwd : Loc) (base loc : Str) (offset length : Nat)
+    (st : TState) : Bool × List Ev × TState :=
+  let ev := (read fs kfuel fuel cwdS cwd base loc offset length EntryPoint.numpy).2
+  match openedIno fs kfuel fuel cwdS cwd base loc with
+  | none => (false, ev, st)
+  | some i =>
+    if fs.data i = [] then (false, ev, st)
+    else if (fs.data i).length < offset + length then (false, ev, { raw := some i, arr := false })
+    else (true, ev, { raw := some i, arr := true })
+
+/-- `_load()` followed by the use of the mapping by the caller; `fin` is what the caller does to the
+state afterwards (`release()` for the serialisation path, nothing otherwise). -/
+def loadThen (fs : FS) (kfuel fuel : Nat) (cwdS : Str) (cwd : Loc) (base loc : Str) (offset length : Nat)
+    (st : TState) (fin : TState → TState) : ReadResult × List Ev × TState :=
+  let r := loadStep fs kfuel fuel cwdS cwd base loc offset length st
+  match r.1, r.2.2.raw with
+  | true, some i => (ReadResult.ok (sliceOf (fs.data i) offset length), r.2.1, fin r.2.2)
+  | _, _ => (ReadResult.raised, r.2.1, r.2.2)
+
+/-- One CALL of an entry point on a tensor with cached state `st` (numpy 901-910, `__array__`
+876-881, tobytes 912-929, tofile 931-944, serialisation = `numpy().copy()` then `release()`,
+external_data.py:271-272).  A mapped tensor is served from the mapping without any event;
+`tofile` opens the path on every call. -/
+def call (fs : FS) (kfuel fuel : Nat) (cwdS : Str) (cwd : Loc) (base loc : Str) (offset length : Nat)
+    (ep : EntryPoint) (st : TState) : ReadResult × List Ev × TState :=
+  match ep with
+  | EntryPoint.tofile =>
+    let r := read fs kfuel fuel cwdS cwd base loc offset length EntryPoint.tofile
+    (r.1, r.2, st)
+  | EntryPoint.tobytes =>
+    match st.raw with
+    | some i => (ReadResult.ok (sliceOf (fs.data i) offset length), [], st)
+    | none => loadThen fs kfuel fuel cwdS cwd base loc offset length st id
+  | _ =>
+    let fin := fun (s : TState) => if ep = EntryPoint.serializeRaw then TState.fresh else s
+    match st.arr, st.raw with
+    | true, some i => (ReadResult.ok (sliceOf (fs.data i) offset length), [], fin st)
+    | _, _ => loadThen fs kfuel fuel cwdS cwd base loc offset length st fin
+
+end IrVerif.Path
+
+namespace IrVerif.Path
+
+/-- A step in the life of one external tensor: the tree changes under it, `base_dir` is
+re-assigned, `release()`, or an entry point is called. -/
+inductive Step where
+  | setFS (fs : FS)
+  | setBase (base : Str)
+  | release
+  | call (ep : EntryPoint)
+
+structure Sess where
+  fs : FS
+  base : Str
+  st : TState
+
+/-- what one call did: the tree and base directory at the time of the call, the entry point, its
+result and its events -/
+structure LogEntry where
+  fs : FS
+  base : Str
+  ep : EntryPoint
+  res : ReadResult
+  events : List Ev
+
+def stepSess (kfuel fuel : Nat) (cwdS : Str) (cwd : Loc) (loc : Str) (offset length : Nat)
+    (s : Sess) : Step → Sess × Option LogEntry
+  | Step.setFS fs => ({ s with fs := fs }, none)
+  | Step.setBase b => ({ s with base := b }, none)
+  | Step.release => ({ s with st := TState.fresh }, none)
+  | Step.call ep =>
+    let r := call s.fs kfuel fuel cwdS cwd s.base loc offset length ep s.st
+    ({ s with st := r.2.2 }, some { fs := s.fs, base := s.base, ep := ep, res := r.1, events := r.2.1 })
+
+/-- run a sequence of steps; returns the final session and the log of calls (oldest first) -/
+def runSess (kfuel fuel : Nat) (cwdS : Str) (cwd : Loc) (loc : Str) (offset length : Nat) :
+    Sess → List Step → Sess × List LogEntry
+  | s, [] => (s, [])
+  | s, x :: xs =>
+    let r := stepSess kfuel fuel cwdS cwd loc offset length s x
+    let rest := runSess kfuel fuel cwdS cwd loc offset length r.1 xs
+    match r.2 with
+    | some e => (rest.1, e :: rest.2)
+    | none => (rest.1, rest.2)
+
+end IrVerif.Path
